@@ -52,6 +52,9 @@ class Prop(object):
         for comp in COMP_ID:
             for fmt in (None, 'b', 't', 'u'):
                 u.append(('literal', {'comp': comp, 'fmt': fmt, 'big': big}))
+        # the compression algorithm named as the plain integer of RFC 4880 9.3 (0 also as False) instead of the enum member
+        for comp, how in (('Uncompressed', 'int'), ('Uncompressed', 'bool'), ('ZIP', 'int'), ('BZ2', 'int')):
+            u.append(('literal', {'comp': comp, 'fmt': 'b', 'big': 4096, 'comp_as': how}))
         for n in (0, 1, 2, 3):
             for order in itertools.permutations(range(3), n):
                 for times in ('equal', 'increasing', 'decreasing'):
@@ -146,6 +149,10 @@ class Prop(object):
                     stage = None
                     try:
                         kw = {'compression': CompressionAlgorithm[comp]}
+                        if case.get('comp_as') == 'int':
+                            kw['compression'] = int(CompressionAlgorithm[comp])
+                        elif case.get('comp_as') == 'bool':
+                            kw['compression'] = bool(int(CompressionAlgorithm[comp]))
                         if fmt:
                             kw['format'] = fmt
                         if fname == '_CONSOLE':
